@@ -53,6 +53,9 @@ void vp_c16_sig_element(QDomElement *out);        // element of the last element
 void vp_c16_set_class(const QObject *o, const QMetaObject *mo);
 // password checker log (filled by the harness' FakeChecker)
 bool vp_c16_false();
+void vp_c16_concat(QString *out, const QString *a, unsigned short ch, const QString *b);   // out = a + ch + b
+unsigned vp_c16_nfeatures();                    // calls of the (cut) QXmppIncomingClient::sendStreamFeatures
+unsigned vp_c16_orc_count(); void vp_c16_orc_input(unsigned i, QByteArray *out);   // crypto oracle log
 void vp_c16_b64_text(QString *out, const QByteArray *raw);   // base64 text (abstract placeholder) of a non-empty byte string
 unsigned vp_c16_plain_ref(const QByteArray *raw, const QString *user, const QString *password);   // RFC 4616 reference parse: bit0 well-formed, bit1 user matches, bit2 password matches
 bool vp_c16_concat_eq(const QString *x, const QString *a, unsigned short ch, const QString *b);   // x == a + ch + b
